@@ -11,6 +11,7 @@ package props
 import (
 	"bytes"
 	"context"
+	"encoding/binary"
 	"fmt"
 	"math/big"
 	"sort"
@@ -601,5 +602,66 @@ func TestC05_MessageIDsUniqueAndIncreasing(t *testing.T) {
 		})
 		trace := strings.Join(log, " ")
 		evid.Case(t.Name(), trace, puts >= 2 && removals >= 1, []string{fmt.Sprintf("puts>=%d", min(puts/2*2, 8)), fmt.Sprintf("replaceAbsent=%d", min(absentReplaces, 3))}, func() any { return log })
+	})
+}
+
+// Compass deployment messages are signed as keccak(bytecode || message id). For any way of writing the id after the
+// bytecode, bytes at the boundary must not be able to change sides: candidates are built by appending the leading bytes
+// of several plausible renderings of the id (fixed 8-byte big endian, minimal big endian, uvarint, decimal digits) to
+// the bytecode and reading the rest as the other message's id.
+func TestC05_UploadSigningBytesSeparateBytecodeFromId(t *testing.T) {
+	evid.Check(t, 20000, 200000, func(t *rapid.T) {
+		code := rapid.SliceOfN(rapid.Byte(), 1, 48).Draw(t, "bytecode")
+		id := rapid.OneOf(rapid.Uint64Range(1, 300), rapid.Uint64Range(128, 1<<21), rapid.Uint64Range(1, 1<<62)).Draw(t, "id")
+		enc := rapid.SampledFrom([]string{"be8", "beMinimal", "uvarint", "decimal"}).Draw(t, "rendering")
+		var r []byte
+		switch enc {
+		case "be8":
+			r = binary.BigEndian.AppendUint64(nil, id)
+		case "beMinimal":
+			r = new(big.Int).SetUint64(id).Bytes()
+		case "uvarint":
+			r = binary.AppendUvarint(nil, id)
+		default:
+			r = []byte(fmt.Sprint(id))
+		}
+		if len(r) < 2 {
+			t.Skip("rendering too short to split")
+		}
+		k := rapid.IntRange(1, len(r)-1).Draw(t, "bytesMoved")
+		rest := r[k:]
+		var id2 uint64
+		ok := true
+		switch enc {
+		case "be8", "beMinimal":
+			id2 = new(big.Int).SetBytes(rest).Uint64()
+		case "uvarint":
+			v, n := binary.Uvarint(rest)
+			ok = n == len(rest)
+			id2 = v
+		default:
+			_, err := fmt.Sscan(string(rest), &id2)
+			ok = err == nil && rest[0] != '0'
+		}
+		if !ok {
+			t.Skip("the remainder is not a rendering of an id")
+		}
+		code2 := append(append([]byte(nil), code...), r[:k]...)
+		q := "evm/eth-main/evm-turnstone-message"
+		_ = q
+		bytesOf := func(code []byte, id uint64) []byte {
+			m := &evmtypes.Message{TurnstoneID: "compass-1", ChainReferenceID: "eth-main", Assignee: "a", Action: &evmtypes.Message_UploadSmartContract{UploadSmartContract: &evmtypes.UploadSmartContract{Bytecode: code, Abi: "[]", ConstructorInput: nil, Id: 1}}}
+			bz, err := m.Keccak256WithSignedMessage(&consensustypes.QueuedSignedMessage{Id: id})
+			if err != nil {
+				t.Fatalf("signing bytes: %v", err)
+			}
+			return bz
+		}
+		if bytes.Equal(bytesOf(code, id), bytesOf(code2, id2)) {
+			t.Fatalf("compass deployments (bytecode %x, message %d) and (bytecode %x, message %d) share their signing bytes", code, id, code2, id2)
+		}
+		evid.Case(t.Name(), fmt.Sprintf("%s %x/%d -> %x/%d", enc, code, id, code2, id2), true, []string{"rendering:" + enc}, func() any {
+			return map[string]any{"rendering": enc, "bytecode": fmt.Sprintf("%x", code), "id": id, "bytecode2": fmt.Sprintf("%x", code2), "id2": id2}
+		})
 	})
 }
